@@ -469,6 +469,19 @@ def compare(las, model, ci=None):
                 got = repr(e)
             if got != model[pos]["arr"]:
                 bad.append(("las[%r]" % k, model[pos]["arr"], got))
+        # names the list model does not hold (round 8: a case variant of a held name on a read object, a name never
+        # used): mnemonic indexing has nothing to return, exactly as keys() / `in keys()` say
+        for k in sorted(set(kk.swapcase() for kk in keys) | {"ZZ_ABSENT"}):
+            if k in keys:
+                continue
+            try:
+                got = "returned " + repr(tuple(np.asarray(las[k]).tolist()))
+            except KeyError:
+                got = "KeyError"
+            except Exception as e:
+                got = repr(e)
+            if got != "KeyError":
+                bad.append(("las[%r] (absent name)" % k, "KeyError", got))
     else:
         try:
             las.index
